@@ -11,7 +11,7 @@ from spyne import Application, ServiceBase, rpc, Fault
 from spyne.auxproc.sync import SyncAuxProc
 from spyne.model._base import Ignored
 from spyne.model.complex import ComplexModel, Array, Iterable
-from spyne.model.primitive import Integer, Unicode, Boolean
+from spyne.model.primitive import Integer, Unicode, Boolean, Duration, DateTime, Decimal, Double, Date
 from spyne.protocol.json import JsonDocument
 from spyne.protocol.soap import Soap11
 from spyne.protocol.xml import XmlDocument
@@ -169,6 +169,10 @@ def _service(calls):
         def bare0(ctx):
             return Pt(x=4, s='z')
 
+        @rpc(Duration, DateTime, Decimal, Double, Date, _returns=[Duration, DateTime, Decimal, Double, Date])
+        def prims(ctx, r, t, n, f, a):
+            return r, t, n, f, a
+
         @rpc(_returns=[Pt, Pt])
         def same_twice(ctx):
             p = Pt(x=8, s='same')          # one object given as both return values
@@ -189,6 +193,14 @@ def _service(calls):
     return Svc
 
 
+import datetime as _dt
+import decimal as _dec
+
+# (duration, date-time, decimal, double, date): values whose parts are zero in places where a shortcut may look
+PRIM_CALLS = [(_dt.timedelta(days=1, microseconds=250), _dt.datetime(2020, 1, 1, 0, 0, 0, 7), _dec.Decimal('0.10'), 0.0, _dt.date(2020, 2, 29)),
+              (_dt.timedelta(0), _dt.datetime(2020, 1, 1, 0, 0, 0, 0, _dt.timezone.utc), _dec.Decimal('-1'), -1.5, _dt.date(1, 1, 1)),
+              (_dt.timedelta(days=-3, seconds=5), _dt.datetime(1999, 12, 31, 23, 59, 59, 999999), _dec.Decimal('1E+2') * 0 + 7, 1e22, _dt.date(9999, 12, 31))]
+
 CALLS = [('w0', (), {}), ('w1', (5,), {}), ('w1', (), {'i': 5}), ('w1', (0,), {}), ('w1', (), {'i': 0}), ('w1', (), {}),
          ('w2', (1, 'a'), {}), ('w2', (1,), {'s': 'a'}), ('w2', (), {'s': 'a', 'i': 1}), ('w2', (0, ''), {}),
          ('w3', (4,), {}), ('ob1', (3,), {}), ('ob1', (), {'i': 3}), ('bare', (), {'x': 1, 's': 'q'}),
@@ -197,10 +209,17 @@ CALLS = [('w0', (), {}), ('w1', (5,), {}), ('w1', (), {'i': 5}), ('w1', (0,), {}
          ('bare0gen', (), {}), ('boom', (3,), {}), ('boom', (4,), {}), ('boom_void', (1,), {}), ('boom2', (1,), {}),
          ('ign2', (5,), {}), ('same_twice', (), {}), ('same_in_array', (), {}),
          # values that are false in a boolean context, field-wise for a bare complex argument; no field at all
-         ('bare', (0, ''), {}), ('bare', (), {'x': 0, 's': ''}), ('bare', (), {}), ('w2', (), {}), ('w3', (0,), {})]
+         ('bare', (0, ''), {}), ('bare', (), {'x': 0, 's': ''}), ('bare', (), {}), ('w2', (), {}), ('w3', (0,), {})] + [
+    ('prims', v, {}) for v in PRIM_CALLS]
 
 
 def norm(v):
+    import datetime as _dt
+    import decimal as _dec
+    if isinstance(v, _dt.timedelta):
+        return ('duration', v.days, v.seconds, v.microseconds)
+    if isinstance(v, (_dt.datetime, _dt.date, _dec.Decimal)):
+        return str(v)
     if isinstance(v, ComplexModel):
         return {k: norm(getattr(v, k, None)) for k in type(v).get_flat_type_info(type(v))}
     if isinstance(v, (list, tuple)) or hasattr(v, '__next__'):
@@ -253,7 +272,8 @@ def wire_json(c, name, args, kwargs):
                  "same call as a JsonDocument request and decoding the reply; an Ignored return reaches the direct caller "
                  "and is empty on the wire")
 def relational(c):
-    name, args, kwargs = c.choose(CALLS, 'call')
+    # (the calls that pass date / duration / decimal values are compared over the XML family, whose reference codec spells them)
+    name, args, kwargs = c.choose([x for x in CALLS if x[0] != 'prims'], 'call')
     calls = []
     Svc = _service(calls)
     app = Application([Svc], TNS, in_protocol=JsonDocument(), out_protocol=JsonDocument())
